@@ -129,7 +129,7 @@ class C02Spec(ModelSpec):
         self.key_dirs = False
         ops = []
         for pid in self.pids:
-            for val in (None, "add:sha224", "add:blake2s", "ok:sha3_256", "add:SHA3-512+ok:sha-224"):
+            for val in (None, "add:sha224", "add:blake2s", "ok:sha3_256", "add:SHA3-512+ok:sha-224", "add:sha224+ok:SHA3-512"):
                 ops.append(("store", pid, "A" if pid != "r" else "B", val))
             ops.append(("delete", pid))
         ops.append(("store_nopid", "B"))
